@@ -252,6 +252,19 @@ def _worker(items, base):
                         out["violations"].append({"driver": "setsite", "size": 1,
                                                   "title": "%s().set(<%s value>) is accepted although their ARC-4 layouts differ" % (b, a),
                                                   "a": str(a), "b": str(b), "ia": i, "ib": j, "features": {"why": "setsite"}})
+        # element sites: a[0].store_into(<b value>) and <b value>.set(a[0]) for array / tuple types a
+        if isinstance(a, (abi.TupleTypeSpec, abi.ArrayTypeSpec)):
+            for b in U:
+                if norm(b)[0] in ("ref", "txn"):
+                    continue
+                for site, et, acc5 in element_sites(a, b):
+                    cnt["element_sites"] = cnt.get("element_sites", 0) + 1
+                    oc["element_site_accepted" if acc5 else "element_site_refused"] = \
+                        oc.get("element_site_accepted" if acc5 else "element_site_refused", 0) + 1
+                    if acc5 and norm(et) != norm(b):
+                        out["violations"].append({"driver": "elementsite", "size": 1,
+                                                  "title": "element 0 of %s (a %s) %s a value of type %s although their ARC-4 layouts differ" % (a, et, site, b),
+                                                  "a": str(a), "b": str(b), "ia": i, "ib": -2, "features": {"why": "elementsite"}})
         # declared types that only exist as ARC-4 signature text (uint24, ufixed64x2, ...): an inner method call
         # may only accept a value whose layout is that of the declared type
         if norm(a)[0] not in ("ref", "txn"):
@@ -289,6 +302,33 @@ def call_site_accepts(a, b):
         return True
     except (pt.TealInputError, pt.TealTypeError):
         return False
+
+
+def element_sites(a, b):
+    """a is an array / tuple type: its element 0 (a ComputedValue) is stored into / assigned to a value of type b.
+    -> list of (site name, element type spec, accepted?)"""
+    out = []
+    try:
+        ai, bi = a.new_instance(), b.new_instance()
+        if isinstance(a, abi.TupleTypeSpec):
+            if a.length_static() == 0:
+                return out
+            et = a.value_type_specs()[0]
+        else:
+            if isinstance(a, abi.StaticArrayTypeSpec) and a.length_static() == 0:
+                return out
+            et = a.value_type_spec()
+    except Exception:
+        return out
+    for site, fn in (("store_into", lambda: ai[0].store_into(bi)), ("set(computed)", lambda: bi.set(ai[0]))):
+        try:
+            fn()
+            out.append((site, et, True))
+        except (pt.TealInputError, pt.TealTypeError):
+            out.append((site, et, False))
+        except (TypeError, AttributeError, KeyError, IndexError):
+            pass
+    return out
 
 
 def set_site_accepts(a, b):
@@ -365,6 +405,11 @@ def replay(case):
             acc = call_site_accepts(a, b)
             if acc is not None and acc != asg:
                 bad = True
+            if isinstance(a, (abi.TupleTypeSpec, abi.ArrayTypeSpec)) and norm(b)[0] not in ("ref", "txn"):
+                for site, et, acc5 in element_sites(a, b):
+                    if acc5 and norm(et) != norm(b):
+                        print("element site", site, "accepts")
+                        bad = True
             if norm(a)[0] not in ("ref", "txn") and norm(b)[0] not in ("ref", "txn"):
                 acc2 = method_call_accepts(a, b)
                 if acc2 is not None and acc2 != asg:
